@@ -9,7 +9,7 @@
 // class's own keymap, set_num_events_to_store, set_up, process_data).  The projection data written per frame
 // (Interfile under build/out, or ProjDataInMemory) are read back and printed.
 //
-// Usage: c14_lm_histogram <seed> <quick|thorough> <opsfile> <implfile>
+// Usage: c14_lm_histogram <seed> <quick|thorough> <opsfile> <implfile> [hist|lmobj]
 //   ops  : cfg tpl … / stream … / run …   (see lean/Driver/C14.lean)
 //   impl : one answer line per op
 //   impl.oracle : the property's own statement evaluated on the implementation:
@@ -19,6 +19,20 @@
 //        (c) the frames of a partition add up to the histogram of the whole interval,
 //        (d) num_events_to_store keeps exactly the events up to the one that completes the requested total,
 //        (e) CListEvent::get_bin == get_bin_for_det_pos_pair glue.
+//
+// FAMILY 2 (namespace lmo, after the histogram cases; own Rng stream): the same kind of synthetic ListModeData is given to the REAL
+// PoissonLogLikelihoodWithLinearModelForMeanAndListModeDataWithProjMatrixByBin (set_input_data, set_proj_matrix, set_additive_proj_data_sptr,
+// set_normalisation_sptr, set_max_segment_num_to_process, set_num_subsets, frame_defs, "time frame number" / "num_events_to_use" through the
+// keymap, set_cache_path / set_cache_max_size / set_recompute_cache, set_up) and every subset's gradient, gradient plus sensitivity,
+// sensitivity, Hessian product and value are computed.
+//   ops  : cfg tpl / stream (processed geometry) / lmcfg / lmimg / lmbin (rows, additive values, basic views from the real matrix) /
+//          lmgps <subset> (answer: gradient plus sensitivity of the real class, hex floats)
+//   oracle: (f) the property's last clause on the implementation: the events histogrammed by the real LmToProjData and given to the real
+//          PoissonLogLikelihoodWithLinearModelForMeanAndProjData with the same matrix type, additive term and normalisation give the same
+//          gradient (per subset and in total; see the comments at the comparisons for what is comparable for TOF data),
+//          (g) textbook expressions in double precision on explicit rows, (h) cache-size independence, (i) setter histories against fresh
+//          objects (bitwise), (j) value differences.  Known classes of defects are recognised and reported with a stable key.
+// Optional 5th argument (development): "hist" = family 1 only, "lmobj" = family 2 only.  C14_ALL_FAILS=1 prints every ORACLE-FAIL line.
 #include "stir_fixtures.h"
 #include "common.h"
 #include "stir/listmode/LmToProjData.h"
@@ -1626,12 +1640,13 @@ run_family(vh::Rng& rng, bool thorough)
       g_stat["lmo_computed"]++;
 
       // ---- textbook values per subset; classification of the outcome of the event sums
-      std::vector<Text> T, Tlast, Tall;
+      std::vector<Text> T, Tlast, Tall, Tall_last;
       for (int sub = 0; sub < s.nsub; ++sub)
         {
           T.push_back(textbook(g, rows, events, s.nsub, sub, false));
           Tlast.push_back(textbook(g, rows, events, s.nsub, sub, true));
           Tall.push_back(textbook(g, rows, all_events, s.nsub, sub, false));
+          Tall_last.push_back(textbook(g, rows, all_events, s.nsub, sub, true));
         }
       auto all_subsets_ok = [&](const std::vector<Text>& tt) {
         for (int sub = 0; sub < s.nsub; ++sub)
@@ -1640,6 +1655,7 @@ run_family(vh::Rng& rng, bool thorough)
         return true;
       };
       // 0: as the property says; 1..3: a known class of defect (stable key), event sums compared with what that defect gives
+      // (4: defects 2 and 3 together)
       int mode = 0;
       if (!all_subsets_ok(T))
         {
@@ -1659,6 +1675,9 @@ run_family(vh::Rng& rng, bool thorough)
             mode = 2;
           else if (s.num_events > 0 && s.cache != 0 && static_cast<long>(s.cache) < s.num_events && all_subsets_ok(Tall))
             mode = 3;
+          else if (g.additive && g.pdi->is_tof_data() && s.num_events > 0 && s.cache != 0 && static_cast<long>(s.cache) < s.num_events
+                   && all_subsets_ok(Tall_last))
+            mode = 4;
         }
       if (mode == 1)
         {
@@ -1669,7 +1688,7 @@ run_family(vh::Rng& rng, bool thorough)
                           "of the list-mode objective returns 0 for every image, compute_sub_gradient_without_penalty returns minus the subset sensitivity and "
                           "accumulate_sub_Hessian_times_input_without_penalty adds nothing, whatever the events are; e.g. " + ctx);
         }
-      if (mode == 2)
+      if (mode == 2 || mode == 4)
         {
           g_stat["lmo_known_tof_additive_last_bin"]++;
           known_candidate("lmobj:tof-data:additive-term-of-the-last-tof-bin-used-for-every-event",
@@ -1678,14 +1697,14 @@ run_family(vh::Rng& rng, bool thorough)
                           "list-mode gradient then differs from the projection-data gradient of the histogrammed data whenever the additive term depends on the TOF bin; e.g. "
                               + ctx);
         }
-      if (mode == 3)
+      if (mode == 3 || mode == 4)
         {
           g_stat["lmo_known_num_events_per_batch"]++;
           known_candidate("lmobj:num_events_to_use-is-counted-per-batch",
                           "read_listmode_batch counts num_events_to_use with a counter that restarts in every batch: with max cache size < num_events_to_use (or without "
                           "cache files and num_events_to_use > 1000000) no batch ever reaches the count and ALL events of the stream are used; e.g. " + ctx);
         }
-      const std::vector<Text>& TX = mode == 2 ? Tlast : (mode == 3 ? Tall : T);
+      const std::vector<Text>& TX = mode == 2 ? Tlast : (mode == 3 ? Tall : (mode == 4 ? Tall_last : T));
 
       // ---- (c) ops for the Lean model: the list-mode gradient (plus sensitivity) per subset
       emit_cfg(*g.pdi_proc);
